@@ -2,17 +2,18 @@ import Holpy.Common.Sexp
 import Holpy.C12.Model
 /-
 Line protocol of the C12 model (one s-expression in, one out):
-  (run FUEL NAMES FILES LAZY MODS PARSE OPS) -> (((RES (EV ...) THY) ...) THY)   one (RES EVs THY-after-the-op) per op
-  (spec K NAMES FILES LAZY MODS PARSE n LIM) -> (ok (item ...)) | (error KIND)
+  (run FUEL NAMES FILES LAZY MODS PARSE EXT OPS) -> (((RES (EV ...) THY) ...) THY)   one (RES EVs THY-after-the-op) per op
+  (spec K NAMES FILES LAZY MODS PARSE EXT n LIM) -> (ok (item ...)) | (error KIND)
 NAMES = (n ...)                     directory listing
 FILES = ((n (import ...) (item ...) mtime) ...)
 LAZY  = ((n m) ...)                 `if filename == n: import m`
 MODS  = ((m (ACT ...)) ...)         ACT = (imp m) | (load n)
 PARSE = ((item KIND ((alt ...) ...)) ...) KIND = ok (ok iff every group has a visible member, else err) | err | raise;
         unlisted items: ok
+EXT   = ((item (blocker ...)) ...)   the extension of item cannot be added when a blocker is in the theory; unlisted: always
 OPS   = (load n LIM FAULT) | (imp m) | (touch n t) | (edit n (import ...) (item ...) t) | (reload)
 LIM   = none | start | (item i);  FAULT = none | i
-RES   = ok | cycle | key | order | parse | limit | fuel;  THY = none | (item ...)
+RES   = ok | cycle | key | order | parse | limit | extend | fuel;  THY = none | (item ...)
 EV    = (read n) | (exec m) | meta
 -/
 open Holpy Holpy.C12
@@ -67,8 +68,13 @@ def opOf : Sexp → Option Op
 
 def lookupD {α} (d : α) (l : List (Nat × α)) (k : Nat) : α := (l.lookup k).getD d
 
-def mkWorld (lazy : List (Nat × Nat)) (mods : List (Mod × List Act)) (rules : List (Item × Kind × List (List Item))) : World :=
-  { parse := fun i ctx =>
+def mkWorld (lazy : List (Nat × Nat)) (mods : List (Mod × List Act)) (rules : List (Item × Kind × List (List Item)))
+    (ext : List (Item × List Item)) : World :=
+  { extend := fun i ctx =>
+      match ext.lookup i with
+      | none => true
+      | some bl => !(bl.any fun b => ctx.contains b)
+    parse := fun i ctx =>
       match rules.lookup i with
       | none => .ok
       | some (.raise, _) => .raise
@@ -84,6 +90,7 @@ def errTo : Option Err → String
   | some .order => "order"
   | some .parse => "parse"
   | some .limit => "limit"
+  | some .extend => "extend"
   | some .fuel => "fuel"
 
 def evTo : Event → Sexp
@@ -102,24 +109,29 @@ def runOps (W : World) (fuel : Nat) : List Op → State → List Sexp → List S
     let r := step W fuel op { s with log := [] }
     runOps W fuel ops r.2 (.list [.atom (errTo r.1), .list (r.2.log.map evTo), thyTo r.2.thy] :: acc)
 
-def setup (names files lazy mods parse : Sexp) : Option (World × List Name × (Name → File)) := do
+def extOf : Sexp → Option (Item × List Item)
+  | .list [i, bs] => do some ((← i.toNat?), (← natsOf bs))
+  | _ => none
+
+def setup (names files lazy mods parse ext : Sexp) : Option (World × List Name × (Name → File)) := do
   let ns ← natsOf names
   let fs ← (← files.toList?).mapM fileOf
   let lz ← (← lazy.toList?).mapM pairOf
   let ms ← (← mods.toList?).mapM modOf
   let rs ← (← parse.toList?).mapM ruleOf
-  some (mkWorld lz ms rs, ns, lookupD { imports := [], items := [], mtime := 0 } fs)
+  let es ← (← ext.toList?).mapM extOf
+  some (mkWorld lz ms rs es, ns, lookupD { imports := [], items := [], mtime := 0 } fs)
 
 def handle (line : String) : String :=
   match Sexp.parse line with
-  | some (.list [.atom "run", fuel, names, files, lazy, mods, parse, ops]) =>
-    match fuel.toNat?, setup names files lazy mods parse, (ops.toList?.bind fun l => l.mapM opOf) with
+  | some (.list [.atom "run", fuel, names, files, lazy, mods, parse, ext, ops]) =>
+    match fuel.toNat?, setup names files lazy mods parse ext, (ops.toList?.bind fun l => l.mapM opOf) with
     | some f, some (W, ns, fs), some os =>
       let (res, s) := runOps W f os (initState ns fs) []
       toString (Sexp.list [.list res, thyTo s.thy])
     | _, _, _ => "bad-op"
-  | some (.list [.atom "spec", k, names, files, lazy, mods, parse, n, lim]) =>
-    match k.toNat?, setup names files lazy mods parse, n.toNat?, limOf lim with
+  | some (.list [.atom "spec", k, names, files, lazy, mods, parse, ext, n, lim]) =>
+    match k.toNat?, setup names files lazy mods parse ext, n.toNat?, limOf lim with
     | some k, some (W, ns, fs), some n, some l =>
       let L : Lib := { names := ns, imports := fun n => (fs n).imports, items := fun n => (fs n).items }
       match specLoad W L k n l with
